@@ -17,12 +17,13 @@ static struct { uint8_t *p; int pg; } ptrs[MAXP]; static size_t nptrs;   /* ever
 static struct { uint8_t *p; size_t n; int pg; } shadow[MAXP]; static size_t nshadow;
 static size_t pat_counter;
 static size_t first_size;
+static int sparse;      /* obs=sparse: used/free are queried only on `observe` */
 static int libc_pool;   /* built by cc_dynamic_pool_new: pages come from libc and are not pre-filled */
 
 static void *fill_malloc(size_t n) { void *p = conf_malloc(n); if (p) memset(p, FRESH, n); return p; }
 static void *fill_calloc(size_t a, size_t b) { return conf_calloc(a, b); }
 
-static void shim_reset(void) { pool = NULL; nptrs = nshadow = 0; pat_counter = 0; libc_pool = 0; }
+static void shim_reset(void) { pool = NULL; nptrs = nshadow = 0; pat_counter = 0; libc_pool = 0; sparse = 0; }
 
 /* pages oldest first */
 static int page_list(PageInfo **out) {
@@ -43,8 +44,15 @@ static void o_ptr(uint8_t *p) {
     size_t off; int i = page_of(p, &off);
     if (i < 0) o(" p=? WALK=block-in-no-page"); else o(" p=%d:%zu", i, off);
 }
-static void obs_abs(void) {
+static void obs_sweep(void) {
     if (pool) o(" used=%zu free=%zu", cc_dynamic_pool_used_bytes(pool), cc_dynamic_pool_free_bytes(pool));
+}
+static void obs_abs(void) { if (!sparse) obs_sweep(); }
+/* private view of used bytes (no call into the library) for the walkers and the shadow list */
+static size_t priv_used(void) {
+    size_t t = (size_t)(pool->free_ptr - pool->low_ptr);
+    for (PageInfo *p = ((PageInfo *)pool->page)->previous; p; p = p->previous) t += p->size;
+    return t;
 }
 static void phys(void) {
     if (!pool) { o("-"); return; }
@@ -83,7 +91,7 @@ static void handed_out(uint8_t *p, size_t n, size_t used_before, size_t pages_be
     if (nptrs < MAXP) { ptrs[nptrs].p = p; ptrs[nptrs].pg = pgi; nptrs++; }
     if (!p) {
         PageInfo *pg[MAXPG];
-        if (cc_dynamic_pool_used_bytes(pool) != used_before || (size_t)page_list(pg) != pages_before) o(" WALK=null-changed-state");
+        if (priv_used() != used_before || (size_t)page_list(pg) != pages_before) o(" WALK=null-changed-state");
         return;
     }
     if (nshadow < MAXP) { shadow[nshadow].p = p; shadow[nshadow].n = n; shadow[nshadow].pg = pgi; nshadow++; }
@@ -98,6 +106,7 @@ static void do_op(Cmd *c) {
     if (is_op(c, "new") || is_op(c, "new_default")) {
         shim_reset();
         size_t size = kv_u64(c, "size", 16);
+        int sp = !strcmp(kv_str(c, "obs", "full"), "sparse");
         enum cc_stat st;
         if (is_op(c, "new")) {
             CC_DynamicPoolConf conf; cc_dynamic_pool_conf_init(&conf);
@@ -109,17 +118,19 @@ static void do_op(Cmd *c) {
             st = cc_dynamic_pool_new_conf(size, &conf, &pool);
         } else { libc_pool = 1; st = cc_dynamic_pool_new(size, &pool); }
         if (st != CC_OK) pool = NULL;
-        first_size = size;
+        first_size = size; sparse = sp;
         o_stat(st);
     } else if (!pool) { o("st=- nosession"); o_sep(); o("-"); return;
+    } else if (is_op(c, "observe")) {
+        o("st=-"); obs_sweep(); o_sep(); phys(); return;
     } else if (is_op(c, "malloc")) {
-        size_t n = pos_u64(c, 0), u = cc_dynamic_pool_used_bytes(pool), np = npages();
+        size_t n = pos_u64(c, 0), u = priv_used(), np = npages();
         uint8_t *p = cc_dynamic_pool_malloc(n, pool);
         o("st=%s", (op_refused && !p) ? "1" : "-"); o_ptr(p);
         if (kv_u64(c, "probe", 0) && p) o(" absalign=%d", (int)((uintptr_t)p % pool->alignment_boundary == 0));
         handed_out(p, n, u, np);
     } else if (is_op(c, "calloc")) {
-        size_t a = pos_u64(c, 0), b = pos_u64(c, 1), u = cc_dynamic_pool_used_bytes(pool), np = npages();
+        size_t a = pos_u64(c, 0), b = pos_u64(c, 1), u = priv_used(), np = npages();
         uint8_t *p = cc_dynamic_pool_calloc(a, b, pool);
         o("st=%s", (op_refused && !p) ? "1" : "-"); o_ptr(p);
         if (p) {
@@ -134,9 +145,9 @@ static void do_op(Cmd *c) {
         uint8_t *p = NULL;
         if (kv_str(c, "idx", NULL)) { size_t k = kv_u64(c, "idx", 0); p = k < nptrs ? ptrs[k].p : NULL; }
         else if (kv_str(c, "off", NULL)) p = pool->low_ptr + kv_u64(c, "off", 0);   /* an address in the top page */
-        size_t u = cc_dynamic_pool_used_bytes(pool);
+        size_t u = priv_used();
         cc_dynamic_pool_free(p, pool);
-        size_t u2 = cc_dynamic_pool_used_bytes(pool);
+        size_t u2 = priv_used();
         if (u2 < u && nshadow) nshadow--;
         o("st=-");
     } else if (is_op(c, "pool_reset")) {
